@@ -13,7 +13,8 @@ FLOORS = {
               'feature:multi-import': 2500, 'feature:same-named-local-definition': 1500, 'feature:override-rule': 1000, 'feature:override-dependency': 500,
               'feature:extend-rule': 1000, 'feature:override-terminal': 500, 'feature:extend-terminal': 500, 'feature:imported-template': 300, 'feature:directive-reaches-composed-terminal': 150,
               'feature:module-ignore-dropped': 2500, 'feature:two-levels': 400, 'feature:underscore-names': 1000, 'feature:accepted': 4000, 'feature:rejected': 2500,
-              'engine:lalr': 1500, 'engine:earley-explicit': 5000},
+              'engine:lalr': 1500, 'engine:earley-explicit': 5000, 'engine:lalr-keep_all_tokens': 1500, 'module-edit:second-loads': 250,
+              'module-edit:inputs-judged': 8000, 'feature:module-edit-reaches-local-composed-terminal': 15},
     'thorough-unused': {'distinct_nontrivial': 40000, 'modular-grammars': 12000},
 }
 RULE = ("cases = (flat grammar F, a split of F into main + 1-2 module files with %import statements (single, multi, renaming, "
@@ -378,7 +379,8 @@ def run_case(ctx, sp, texts, tmp, only_input=None):
     feats = sorted(sp['feats'])
     nontriv = 'transitive-dependency' in sp['feats'] and 'same-named-local-definition' in sp['feats']
     imp = dict(source_path=os.path.join(tmp, 'main.lark')) if sp['relative'] else dict(import_paths=[tmp])
-    engines = [('earley-explicit', dict(parser='earley', lexer='basic', ambiguity='explicit')), ('lalr', dict(parser='lalr'))]
+    engines = [('earley-explicit', dict(parser='earley', lexer='basic', ambiguity='explicit')), ('lalr', dict(parser='lalr')),
+               ('lalr-keep_all_tokens', dict(parser='lalr', keep_all_tokens=True))]
     built = False
     for ename, kw in engines:
         st, lf = build(ctx, ftext, **kw)
@@ -438,10 +440,78 @@ def run_case(ctx, sp, texts, tmp, only_input=None):
                 continue
             if sa != sb:
                 ctx.violation('trees-differ-from-flat-grammar:%s' % ename, case, {'flat': sorted(map(str, sa))[:3], 'modular': sorted(map(str, sb))[:3]}, explained(w, b))
+    if built and only_input is None:
+        module_edit_step(ctx, sp, ftext, texts, tmp, imp, named, back, case0, feats, nontriv)
     for fn in sp['files']:
         os.unlink(os.path.join(tmp, fn))
     if ctx.evaluations % 13 == 0:
         ctx.sample({'flat': ftext, 'main': sp['main'], 'files': sp['files'], 'inputs': texts[:4], 'features': feats})
+
+
+EDITABLE = re.compile(r'^([A-Z][A-Z0-9]*): "([a-z0-9])"$', re.M)
+
+
+def module_edit_step(ctx, sp, ftext, texts, tmp, imp, named, back, case0, feats, nontriv):
+    """second life of the same main text: a terminal of a module gets another body, the module file is rewritten, the
+    unchanged main grammar is loaded again in this process and must now mean what the flat grammar with that edit means
+    (nothing of the first load - parsed text, resolved terminal bodies - may survive)"""
+    if sp.get('flat_alt'):
+        ctx.count('module-edit:skipped(F-C17-1-applies-to-this-split)')
+        return
+    cands = []
+    for fn, tx in sorted(sp['files'].items()):
+        for m in EDITABLE.finditer(tx):
+            line = m.group(0)
+            # defined with the same body in the flat text: neither overridden nor extended from main
+            if len(re.findall('^' + re.escape(line) + '$', ftext, re.M)) == 1 and m.group(1) not in ('JUNK', 'JUNK2'):
+                cands.append((fn, m.group(1), m.group(2), line))
+    if not cands:
+        ctx.count('module-edit:no-editable-terminal')
+        return
+    # preferably the base of a composed terminal that stayed in main (its body was spliced into a local definition)
+    pref = [c for c in cands if ('%s+ ";"' % sp['rename'].get('t:' + c[1], c[1])) in sp['main']]
+    cands = pref or cands
+    fn, name, old, line = cands[len(ftext) % len(cands)]
+    new_line = '%s: "@"' % name
+    ftext2 = re.sub('^' + re.escape(line) + '$', new_line, ftext, flags=re.M)
+    files2 = dict(sp['files'])
+    files2[fn] = re.sub('^' + re.escape(line) + '$', new_line, files2[fn], flags=re.M)
+    with open(os.path.join(tmp, fn), 'w') as f:
+        f.write(files2[fn])
+    named2 = dict(named)
+    named2[name] = re.compile('@')
+    kw = dict(parser='lalr')
+    st, lf = build(ctx, ftext2, **kw)
+    if st != 'ok':
+        ctx.count('module-edit:flat-not-constructible')
+        return
+    st, lm = build(ctx, sp['main'], **dict(kw, **imp))
+    case1 = dict(case0, files=files2, flat_text=ftext2, edited=[fn, name, old], first_life_files=sp['files'])
+    if st != 'ok':
+        ctx.violation('module-edit:modular-grammar-fails-where-flat-constructs', case1, {'status': st, 'exc': lm if st == 'exc' else None})
+        return
+    ctx.count('module-edit:second-loads')
+    composed_local = bool(pref)
+    if composed_local:
+        ctx.count('feature:module-edit-reaches-local-composed-terminal')
+    for w in sorted(set(texts) | {w.replace(old, '@') for w in texts}):
+        a = call(ctx, 'parse', lf.parse, w, budget=400_000)
+        b = call(ctx, 'parse', lm.parse, w, budget=400_000)
+        if 'wall' in (a[0], b[0]) or 'budget' in (a[0], b[0]):
+            continue
+        ctx.judged([ftext2, sp['main'], 'module-edit', w], nontriv or composed_local, feats + ['module-edit'])
+        ctx.count('module-edit:inputs-judged')
+        case = dict(case1, input=w)
+        if (a[0] == 'ok') != (b[0] == 'ok'):
+            ctx.violation('module-edit:language-differs-from-flat-grammar', case, {'flat': a if a[0] != 'ok' else 'accepted', 'modular': b if b[0] != 'ok' else 'accepted'})
+            return
+        try:
+            differ = a[0] == 'ok' and tree_set(a[1], {}, named2) != tree_set(b[1], back, named2)
+        except R.TooMany:
+            continue
+        if differ:
+            ctx.violation('module-edit:trees-differ-from-flat-grammar', case, {'flat': str(a[1])[:300], 'modular': str(b[1])[:300]})
+            return
 
 
 def inputs_for(rng, flat):
@@ -489,7 +559,11 @@ def run_batch(ctx):
 def replay(ctx, case):
     tmp = tempfile.mkdtemp(prefix='vlark-c17-')
     try:
-        sp = {'flat': case['flat'], 'flat_alt': case.get('flat_alt'), 'main': case['main'], 'files': case['files'], 'rename': case['rename'], 'relative': case['relative'], 'feats': set()}
-        run_case(ctx, sp, [case['input']] if 'input' in case else inputs_for(ctx.rng, case['flat']), tmp)
+        sp = {'flat': case['flat'], 'flat_alt': case.get('flat_alt'), 'main': case['main'], 'files': case.get('first_life_files') or case['files'], 'rename': case['rename'],
+              'relative': case['relative'], 'feats': set()}
+        texts = [case['input']] if 'input' in case else inputs_for(ctx.rng, case['flat'])
+        if 'edited' in case and 'input' in case:
+            texts.append(case['input'].replace('@', case['edited'][2]))
+        run_case(ctx, sp, texts, tmp)
     finally:
         shutil.rmtree(tmp, ignore_errors=True)
